@@ -22,11 +22,11 @@ var SDLProfiles = []string{
 scalar
 description
 """ scalar Sc @d ( a : "x" ) extend scalar Sc @e
-"d" type Q implements I & J @d { "fd" f ( "ad" a : Int = 1 @d , b : [ In ! ] ! = [ { x : 1 } ] ) : [ Q ! ] ! @d g : Sc } extend type Q implements K @d { h : Int } extend type Q @d extend type Q implements K
+"d" type Q implements I & J @d { "fd" f ( "ad" a : Int = 1 @d , b : [ In ! ] ! = [ { x : 1 } ] ) : [ Q ! ] ! @d g : Sc } extend type Q implements K @d { "hd" h ( "ad" a : Int = 3 @d ) : Int @d } extend type Q @d extend type Q implements K
 interface I implements J @d { f : Int } extend interface I @d { g : Int } extend interface I @d
 union U @d = | Q | M extend union U @d = S extend union U @d union V = Q union W
 enum E @d { "vd" A @d B } extend enum E @d { C } extend enum E @d
-input In @d { "id" x : Int = 1 @d y : [ In ] } extend input In @d { z : Int } extend input In @d
+input In @d { "id" x : Int = 1 @d y : [ In ] } extend input In @d { "zd" z : Int = 2 @d w : [ In ] = [ { x : 1 } ] } extend input In @d
 "dd" directive @d ( "ad" a : Int = 1 @e ) repeatable on | FIELD | OBJECT directive @e on SCHEMA directive @sd ( a : Int ) on SCHEMA
 type M { m : Int } type S { s : Int } interface J { f : Int } interface K { f : Int }`,
 	// every constant context (directive site, default value) holds an enum value nested in a list and an object,
